@@ -215,12 +215,21 @@ def run_impl(p):
                 rc = [(r, c) for r, l in enumerate(p["lens"]) for c in range(l)]
                 rows = [r for r, _ in rc]; cols = [c for _, c in rc]
                 out = []
-                for mk in (lambda v: list(v), lambda v: np.array(v, dtype=np.uint64), lambda v: np.array(v, dtype=np.int16 if max(list(v) + [0]) < 32768 else np.int32), lambda v: np.array(v, dtype=np.intp)):
+                for mk in (lambda v: list(v), lambda v: np.array(v, dtype=np.uint64), lambda v: np.array(v, dtype=np.int16 if max(list(v) + [0]) < 32768 else np.int32), lambda v: np.array(v, dtype=np.intp),
+                           lambda v: np.array(v, dtype=np.int32), lambda v: np.array(v, dtype=np.int64)):
                     for rr, cc in ((mk(rows), mk(cols)), (mk([]), mk([]))):
                         if len(p["lens"]) == 0 and len(rr):
                             continue
                         res = np.asarray(sh.ravel_multi_index((rr, cc)))
-                        out.append([res.dtype.kind in "iu", [int(x) for x in res]])
+                        first = [int(x) for x in res]
+                        # the index arrays stay the caller's: unchanged by the call, and the same call again gives the same
+                        # positions without disturbing the first result
+                        second = [int(x) for x in np.asarray(sh.ravel_multi_index((rr, cc)))]
+                        if [int(x) for x in rr] != rows[:len(rr)] or [int(x) for x in cc] != cols[:len(cc)]:
+                            raise engine.Inconsistent("ravel_multi_index changed the index arrays it was given")
+                        if second != first or [int(x) for x in res] != first:
+                            raise engine.Inconsistent("ravel_multi_index on the same arguments gave two different results")
+                        out.append([res.dtype.kind in "iu", first])
                 return out
             o["ravel_idx_forms"] = guarded(rav_forms)
             o["index_array"] = guarded(lambda: [int(x) for x in sh.index_array()]) if len(p["lens"]) else canon([])
@@ -375,7 +384,7 @@ def oracle(p):
             o["unravel_any_order"] = canon("big") if rc else canon([])
         o["ravel_idx"] = canon(list(range(sum(lens))))
         full = list(range(sum(lens)))
-        o["ravel_idx_forms"] = canon([[True, v] for _ in range(4) for v in (full, [])])
+        o["ravel_idx_forms"] = canon([[True, v] for _ in range(6) for v in (full, [])])
         o["index_array"] = canon([r for r, _ in rc])
         o["dict_roundtrip"] = canon([starts, list(lens), starts, list(lens)])
         return o
